@@ -66,6 +66,12 @@ func runCommandCC(suite ref.Suite, inSession bool, cmdName string, script []hx.O
 		}
 		cn, bs = s, w.BMC.ActiveSession()
 	}
+	return runOn(w, cn, bs, inSession, cmdName, script, draw, finalCode)
+}
+
+// runOn runs one command with a scripted outcome sequence on an existing
+// connection or session and compares it with the model.
+func runOn(w *hx.World, cn conn, bs *simbmc.Session, inSession bool, cmdName string, script []hx.Outcome, draw int, finalCode byte) string {
 	call := prepare(hx.CatalogueEntry(cmdName), w.BMC, draw)
 	sc := &hx.Scripter{Script: script, FinalCode: finalCode}
 	sc.Install(w.BMC)
@@ -225,6 +231,57 @@ func TestRandomCommands(t *testing.T) {
 		suite := rapid.SampledFrom(hx.Suites12()).Draw(t, "suite")
 		if msg := runCommand(suite, inSession, cmd, sc, rapid.Uint64().Draw(t, "seed"), rapid.IntRange(0, 1<<20).Draw(t, "draw")); msg != "" {
 			t.Fatalf("%s", msg)
+		}
+	})
+}
+
+// TestCommandSequences: several commands one after the other on the same
+// connection and the same session, each with its own outcome script; each is
+// held against the contract on its own, whatever the earlier ones ended with
+// (a lost reply inside the session, a refusal, a run of retries).
+func TestCommandSequences(t *testing.T) {
+	all := []hx.Outcome{hx.Final, hx.FinalCC, hx.FinalTruncated, hx.Lost, hx.Busy, hx.TimeoutCC, hx.Garbage, hx.BadSig}
+	ev.Check(t, "TestCommandSequences", ev.PickN(500, 100000), func(t *rapid.T) {
+		c := hx.Creds{User: "admin", Password: []byte("pw"), Priv: 4, Suite: rapid.SampledFrom(hx.Suites12()).Draw(t, "suite"), Seed: rapid.Uint64().Draw(t, "seed")}
+		w := hx.NewWorldFor(c, true)
+		s, err := w.T.NewV2Session(context.Background(), c.Opts())
+		if err != nil {
+			t.Fatalf("harness: session failed: %v", err)
+		}
+		bs := w.BMC.ActiveSession()
+		n := rapid.IntRange(2, 6).Draw(t, "commands")
+		failedBefore := false
+		var hist []string
+		for i := 0; i < n; i++ {
+			inSession := rapid.IntRange(0, 3).Draw(t, "inSession") > 0
+			var sc []hx.Outcome
+			for len(sc) < 4 {
+				o := rapid.SampledFrom(all).Draw(t, "o")
+				if !inSession && o == hx.BadSig {
+					o = hx.Garbage
+				}
+				sc = append(sc, o)
+				if o.IsFinalReply() || (o == hx.Lost && inSession) {
+					break
+				}
+			}
+			cmd := rapid.SampledFrom(cmdNames).Draw(t, "command")
+			hist = append(hist, fmt.Sprintf("%s%s", cmd, hx.ScriptString(sc)))
+			var cn conn = w.T
+			var sess *simbmc.Session
+			if inSession {
+				cn, sess = s, bs
+			}
+			if msg := runOn(w, cn, sess, inSession, cmd, sc, rapid.IntRange(0, 1<<20).Draw(t, "draw"), hx.FinalCCValue); msg != "" {
+				t.Fatalf("command %d of the history %v: %s", i+1, hist, msg)
+			}
+			w.BMC.Intercept = nil
+			if failedBefore && inSession {
+				ev.Label("sequence:in-session-command-after-a-transport-failure")
+			}
+			if inSession && sc[len(sc)-1] == hx.Lost {
+				failedBefore = true
+			}
 		}
 	})
 }
@@ -579,5 +636,6 @@ func TestUDPInSessionLostReply(t *testing.T) {
 }
 
 func TestCoverage(t *testing.T) {
+	ev.RequireLabels(t, 1, "sequence:in-session-command-after-a-transport-failure")
 	ev.RequireLabels(t, 1, "enumeration-complete", "every-final-code", "handshake-enumeration-complete", "retried:inSession=true", "retried:inSession=false", "retried:handshake", "retried:udp", "udp:in-session-lost-reply")
 }
